@@ -632,6 +632,34 @@ def r_borrowed_r06_18(idx, r):
     r2_cycle(idx, Only(r, ["starting-node"]))
 
 
+def r19_nesting_count_and_zero_values(idx, r):
+    """(a) the output database is a re-entrant context: every `__enter__` adds one to the open count on EVERY path (directly or by opening the
+    file), because every `__exit__` takes one off and closes - marking the run successful - when the count reaches zero.  An `__enter__` on an
+    already open file that does not count lets the matching `__exit__` of a mid-run `with self._db` close the output file for good.
+    (b) the writer of dictionary-valued parameters (component number densities) marks an ABSENT key with NaN: `d.get(k, np.nan)`.  Taking the
+    value through `or` treats a stored 0.0 as absent: the nuclide is missing after the load."""
+    f = idx.method(DB + ".Database", "__enter__")
+
+    def ev(nd):
+        if isinstance(nd, ast.Call) and dotted(nd.func) == "self.open":
+            return ["counted"]
+        if isinstance(nd, ast.AugAssign) and norm(nd.target) == "self._openCount" and isinstance(nd.op, ast.Add):
+            return ["counted"]
+        return []
+    fl = Flow(f.node, ev).run()
+    bad = [e for e in fl.normal_exits() if e.state.get("counted", (0, 0)) != (1, 1)]
+    r.require(not bad, "Database.__enter__:counts-once-on-every-path", f, node=bad[0].node if bad and bad[0].node is not None else f.node,
+              msg="a path through __enter__ does not add exactly one to the open count: the matching __exit__ then closes a database that an outer user still holds open (and marks the run as completed)")
+    g = idx.func("armi.bookkeeping.db.database.packSpecialData")
+    gets = [c for c in ast.walk(g.node) if isinstance(c, ast.Call) and call_attr(c) == "get" and len(c.args) >= 1]
+    if not gets:
+        raise AnchorMissing("packSpecialData: d.get(k, np.nan)")
+    ors = [x for x in ast.walk(g.node) if isinstance(x, ast.BoolOp) and isinstance(x.op, ast.Or) and any(v in gets for v in x.values)]
+    for c in gets:
+        r.require(len(c.args) == 2 and not any(c in x.values for x in ors), "packSpecialData:absent-key-marked-by-default-not-by-truth", g, node=c,
+                  msg=f"`{norm(c)}` decides 'absent' by the truth of the value: a stored 0.0 (a nuclide at zero density) is written as the absent-key marker and is gone after the load")
+
+
 def run(idx, chk):
     chk.explanation = (
         "C06: writers of the successfulCompletion flag and callers that can pass a true value; the chain Case.run -> Operator.__exit__ -> "
@@ -673,3 +701,5 @@ def run(idx, chk):
                  necessary="a run that ends normally leaves a finalised file; histories return the written value of every written step")
     chk.run_rule("R06.18", "clauses of C04/C15 a snapshot rests on: jagged offsets advance by what was appended (R04.6), free coordinates decode as floats (R04.3), the first cycl", lambda r: r_borrowed_r06_18(idx, r), floor=3,
                  necessary="a snapshot holds the state of its step; a restart begins at the node asked for")
+    chk.run_rule("R06.19", "__enter__ counts once on every path; an absent dictionary key is marked through get's default, never through `or`", lambda r: r19_nesting_count_and_zero_values(idx, r), floor=2,
+                 necessary="the output file stays open until its outermost user leaves and is marked complete only then; every written value is in the snapshot")
